@@ -168,10 +168,15 @@ line (before, it had no `\n`, the reset sequence counted 0 lines and the cursor 
 column 0) -/
 def placeholder : Str := "data will be output once the computation is complete...".toList
 
-def placeholderFrame : Str := placeholder ++ ['\n']
+/-- the placeholder as drawn on a terminal `w` columns wide: cut to the width (db52f75; before, the
+55 characters were printed whatever the width and wrapped on narrower terminals) -/
+def placeholderLine (w : Nat) : Str := placeholder.take w
 
-/-- the frames of a run in a row-oriented mode: `k` refreshes, then the final rows -/
-def rowModeFrames (k : Nat) (final : Str) : List Str := List.replicate k placeholderFrame ++ [final]
+def placeholderFrame (w : Nat) : Str := placeholderLine w ++ ['\n']
+
+/-- the frames of a run in a row-oriented mode on a terminal of width `w`: `k` refreshes, then the
+final rows -/
+def rowModeFrames (w k : Nat) (final : Str) : List Str := List.replicate k (placeholderFrame w) ++ [final]
 
 /-- the screen after the frames have been written to a terminal that was blank with the cursor
 at the top left -/
